@@ -277,7 +277,10 @@ func (r *Run) Finish() int {
 		"coverage":    cov,
 		"assumptions": r.Assumptions,
 		"wall_s":      time.Since(r.Start).Seconds(),
-		"violations":  len(r.Violations),
+		"violations":  len(unlisted), // violations not listed as known findings
+	}
+	if n := len(r.Violations) - len(unlisted); n > 0 {
+		cov["observations_matching_known_findings"] = n
 	}
 	if len(r.Broken) > 0 {
 		ev["machinery_failures"] = r.Broken
